@@ -19,6 +19,8 @@ lists comma separated with `-` for the empty list, fees `n` (nil) or `r:c:s`, de
       → 64 hex digits of `OutgoingTxBatch.GetCheckpoint` | `error`
   reset | put <queue> <replaceId> | del <queue> <id>
       → `ok <id>` | `notfound` | `zeroid`
+  hasest <requireGasEstimation 0|1> <estimate>
+      → `true` | `false` of `filters.HasGasEstimate` (is the message offered to relayers)
 -/
 
 def parseBytes? (s : String) : Option Bytes :=
@@ -120,6 +122,11 @@ def step (st : State) (args : List String) : State × String :=
     | some q, some id =>
       let (s', res) := idStep st.ids (.remove q id)
       ({ st with ids := s' }, showIdRes res)
+    | _, _ => (st, "bad-op")
+  | ["hasest", req, est] =>
+    match parseNat? req, parseNat? est with
+    | some req, some est =>
+      if req ≤ 1 then (st, toString (hasGasEstimate (req == 1) est)) else (st, "bad-op")
     | _, _ => (st, "bad-op")
   | "sb" :: "batch" :: rest =>
     match parseBatch? rest with
